@@ -514,6 +514,26 @@ class Gen:
                         go=body, expect=";".join(exp))
         return None
 
+    def scen_dupname(self, k):
+        """D<k>M{g τ; h τ}; D<k>{a σ; g τ; D<k>M; z τ} — `g` names the struct's own member (position 1), the promoted one is
+        shadowed; by type the first τ is `g` too. Three scenarios: the lens by name, by type, and Shape2 by names (g, z)."""
+        rng = self.rng
+        tau = rng.choice([INT, STR, I64, MYI, MYS, F64])
+        sig = rng.choice([t for t in SCALARS if t.name != tau.name])
+        M = Ty("D%dM" % k, "struct", fields=[Field("D%d_g" % k, tau), Field("D%d_h" % k, tau)])
+        R = Ty("D%d" % k, "struct", fields=[Field("D%d_a" % k, sig), Field("D%d_g" % k, tau), Field(M.name, M, embedded=True), Field("D%d_z" % k, tau)])
+        self.w.embnames[M.name] = {f.name for f in M.fields}
+        self.w.embnames[R.name] = {f.name for f in R.fields} | self.w.embnames[M.name]
+        self.w.types += [M, R]
+        out = []
+        for sel in (("name", "D%d_g" % k), ("type",)):
+            o = ("f", R, sel, [1], tau)
+            s0 = rnd(rng, R)
+            ops, go, exp = self.ops_lens(R, o, s0, "dup")
+            body = ["s := %s" % golit(R, s0), "l := %s" % o_go(o)] + go
+            out.append(dict(kind="O", flavour="dupname", depth=o_depth(o), line="O %s | %s | %s" % (o_line(o), tok(R, s0), ops), go=body, expect=";".join(exp)))
+        return out
+
     def pjoin_chains(self, fam):
         """every chain of 2..4 leaf lenses from a root of the family to a scalar field promoted from a
         value-embedded struct, with the attributes the scenarios are stratified by"""
@@ -856,6 +876,11 @@ def gen_batch(rng, scale):
             s = g.scen_pjoin(fam)
             if s is not None:
                 scen.append(s)
+    # a member declared by the struct itself and, later, a same-named member of an embedded struct (the listing has the
+    # name twice: a lens by name is the lens of the FIRST, the struct's own member) — by name, also under Join / Shape2
+    for k in range(2):
+        for s in g.scen_dupname(k):
+            scen.append(s)
     return w.go_decls(), scen
 
 
